@@ -81,6 +81,9 @@ Finish(v, t, cached) ==
                 stray |-> IF ~HasStray(arg) THEN "none"
                           ELSE IF Deviation = "markGroup" THEN v
                           ELSE IF Deviation = "xorKey" /\ cached /\ arg.sig = "swapSigs" THEN v
+                          \* the verifying RRSIG is named by its position among ALL RRSIGs presented;
+                          \* deviation: by its position among those not discarded up front
+                          ELSE IF Deviation = "indexAfterFilter" /\ arg.sig = "junkSignerFirst" THEN v
                           ELSE "NotSecure"]
     /\ estab' = (estab \/ Establishes(arg, clk))
     /\ UNCHANGED ncall
